@@ -48,6 +48,10 @@ CLAIMED["C20"] = ("pool", "Theorem C20_holds, unguarded: after every event every
                   POOL_NOTE, "DESIGN.md 4 C20")
 CLAIMED["C01"] = ("pool", "Theorem C01_holds: on every legal model history the monitor P01 holds (key table of the code = the monitor's key->channel table; a BOUND/UNBIND call for a bound key whose channel is READY is placed on that channel by every picker that places it and IS placed by the most recent picker, across refresh swaps; with fallback off and the channel not READY it is never placed).",
                   POOL_NOTE + "Guards: harness-legal histories (no operation referring to a non-existent pick/picker; the monitors are false on illegal ones, Example in Props_C01.v), fewer than 2^64 pool connections (uint64 evaluator).", "DESIGN.md 4 C01")
+CLAIMED["C03"] = ("pool", "Theorems C03_holds (strict property on histories without a revival), C03R_holds (size bound relaxed by one per revived channel, all other clauses strict), C03_size_bound_step (the bound per critical section, hence under every interleaving of the modelled sections incl. parked picks), C03_init_size, C03_growth_only_when_saturated, C03_remove_only_swapped; C03_revival_refuted is the open known finding RES on the model.",
+                  POOL_NOTE + "Guards: legal histories (only Picks on a picker whose mutex a parked Pick holds matter), config fields >= 0; the strict bound needs 'no revival' (RES).", "DESIGN.md 4 C03")
+CLAIMED["C07"] = ("pool", "Theorem C07_holds (detection flag = config; every completion either counts as a response or follows the exact trigger rule: a replacement is attempted iff client-side deadline, started after the last response, count >= unresponsive_calls, more than ms*2^k elapsed, no refresh in flight; exactly one attempt; old connection serves until the swap; the swap hands over keys, streams, position and removes the old connection exactly once) + refresh_iff, one_replacement, old_serves_until_swap, swap_takes_over, disabled_never_refreshes, factory_failure_does_not_disable.",
+                  POOL_NOTE + "Guards: legal histories, fewer than 2^31 placed calls (int32 stream counter); the iff-clause where ms*2^k < 2^32 (beyond: window_wrap_refuted, R2).", "DESIGN.md 4 C07")
 CLAIMED["C08"] = ("pool", "Theorem C08_holds: fallback table entries always name READY pool connections; with fallback on a keyed call whose home is not READY is placed by the latest picker on the sticky stand-in if one exists, else on a READY channel (also above the watermark) which becomes the stand-in, else not placed; home READY again => home; a Pick never changes the key table.",
                   POOL_NOTE + "Guards as C01.", "DESIGN.md 4 C08")
 CLAIMED["C09"] = ("pool", "Theorems C09_holds (cursor +1 mod 2^32 per round-robin BIND, slot = cursor mod n, handed out iff READY or context ended, blocked picks released exactly then, other picks leave the cursor alone), rr_cursor_init (cursor as a function of the number of BIND picks on every history), rr_window_fair (any n*k consecutive cursor values without 32-bit wrap hit every slot exactly k times) and rr_window_fair_refuted / c09_rr1_on_model (known finding RR1: uneven across the 2^32 wrap for n=3).",
@@ -62,8 +66,7 @@ CLAIMED["C16"] = ("gme", "Theorems C16_holds, update_error_cases, failed_update_
                   "As C15. PARTIAL: goroutines are a census in the model; the harness compares it with runtime stacks (sampled).", "DESIGN.md 4 C16")
 
 PLANNED = {
-    "C03": "pool engine built (model, monitor, correspondence, fix commits; the check runs and catches seeded changes); registered once Props_C03.v carries its theorem",
-    "C07": "as C03",
+
 }
 
 ENGINES = [
